@@ -315,6 +315,7 @@ type c19Agent struct {
 	nAdd  int
 	nRef  int
 	removeFailed bool
+	nConn int // decoy mode: connections accepted
 	ln    net.Listener
 	path  string
 }
@@ -389,6 +390,67 @@ func c19StartAgent(scratch, mode string) (*c19Agent, error) {
 		}
 	}()
 	return a, nil
+}
+
+// c19StartDecoys: the user has NO agent (SSH_AUTH_SOCK unset).  Working agents
+// that are not the user's listen at the places a client might guess: the
+// current directory, the systemd user runtime directory, ~/.ssh.  Whatever
+// reaches one of them left the user's control.
+func c19StartDecoys(scratch, home string, withXDG bool) (decoys []*c19Agent, restore func(), err error) {
+	cwd := filepath.Join(scratch, "cwd")
+	xdg := filepath.Join(scratch, "xdg")
+	for _, d := range []string{cwd, xdg, filepath.Join(xdg, "keyring"), filepath.Join(xdg, "gnupg"), filepath.Join(home, ".ssh")} {
+		if err := os.MkdirAll(d, 0o700); err != nil {
+			return nil, nil, err
+		}
+	}
+	oldwd, _ := os.Getwd()
+	oldXDG, hadXDG := os.LookupEnv("XDG_RUNTIME_DIR")
+	restore = func() {
+		for _, a := range decoys {
+			a.stop()
+			os.Remove(a.path)
+		}
+		os.Chdir(oldwd)
+		if hadXDG {
+			os.Setenv("XDG_RUNTIME_DIR", oldXDG)
+		} else {
+			os.Unsetenv("XDG_RUNTIME_DIR")
+		}
+	}
+	if err := os.Chdir(cwd); err != nil {
+		return nil, restore, err
+	}
+	if withXDG {
+		os.Setenv("XDG_RUNTIME_DIR", xdg)
+	} else {
+		os.Unsetenv("XDG_RUNTIME_DIR")
+	}
+	for _, pth := range []string{filepath.Join(cwd, "ssh-agent.socket"), filepath.Join(cwd, "agent.sock"), filepath.Join(cwd, "ssh-agent.sock"),
+		filepath.Join(xdg, "ssh-agent.socket"), filepath.Join(xdg, "keyring", "ssh"), filepath.Join(xdg, "gnupg", "S.gpg-agent.ssh"),
+		filepath.Join(home, ".ssh", "agent.sock"), filepath.Join(home, ".ssh", "ssh_auth_sock")} {
+		os.Remove(pth)
+		a := &c19Agent{Agent: agent.NewKeyring(), mode: "decoy", path: pth}
+		ln, err := net.Listen("unix", pth)
+		if err != nil {
+			return decoys, restore, err
+		}
+		a.ln = ln
+		go func() {
+			for {
+				c, err := ln.Accept()
+				if err != nil {
+					return
+				}
+				a.mu.Lock()
+				a.nConn++
+				a.mu.Unlock()
+				go func() { agent.ServeAgent(a, c); c.Close() }()
+			}
+		}()
+		decoys = append(decoys, a)
+	}
+	return decoys, restore, nil
 }
 
 func (a *c19Agent) stop() {
@@ -1182,6 +1244,9 @@ func c19ClientRun(p c19Point, env *c19Env, run int) (*c19RunObs, []c19Viol, erro
 		if rel == "." {
 			return nil
 		}
+		if info.Mode()&os.ModeSocket != 0 {
+			return nil // the harness's own decoy agents
+		}
 		fo := c19FileObs{Rel: rel, Mode: fmt.Sprintf("%04o", info.Mode().Perm()), Dir: info.IsDir()}
 		if info.Mode().IsRegular() {
 			data, err := os.ReadFile(path)
@@ -1632,12 +1697,43 @@ func c19RunPoint(p c19Point) (*c19PointObs, []c19Viol, error) {
 			}
 			vclock.Advance(90 * time.Second)
 		}
+		var decoys []*c19Agent
+		restoreDecoys := func() {}
+		if p.Agent == "absent" {
+			// no agent of the user's: other people's agents listen where a client might
+			// guess (first run without, second run with XDG_RUNTIME_DIR)
+			var derr error
+			decoys, restoreDecoys, derr = c19StartDecoys(scratch, env.home, run == 2)
+			if derr != nil {
+				restoreDecoys()
+				return nil, nil, fmt.Errorf("decoy agents: %v", derr)
+			}
+		}
 		obs, vs, err := c19ClientRun(p, env, run)
+		var dvs []c19Viol
+		for _, d := range decoys {
+			d.mu.Lock()
+			nc, na := d.nConn, d.nAdd
+			d.mu.Unlock()
+			if nc > 0 || na > 0 {
+				rel := strings.TrimPrefix(strings.TrimPrefix(d.path, scratch), "/")
+				dvs = append(dvs, c19Viol{Key: "C19|key-sent-to-unconfigured-agent|" + filepath.Base(d.path),
+					What: fmt.Sprintf("SSH_AUTH_SOCK is not set (XDG_RUNTIME_DIR set: %v), yet the client connected %d time(s) to the socket %s, which is not the user's agent, and handed it %d key(s)", run == 2, nc, rel, na)})
+			}
+		}
+		restoreDecoys()
+		if err != nil && len(dvs) > 0 {
+			// the run's own bookkeeping fails because key material went where the
+			// recorder does not look: that is the finding, not a harness problem
+			viols = append(viols, dvs...)
+			continue
+		}
 		if err != nil {
 			return nil, nil, fmt.Errorf("point %s run %d: %v", p, run, err)
 		}
 		po.Runs = append(po.Runs, obs)
 		viols = append(viols, vs...)
+		viols = append(viols, dvs...)
 	}
 	if n, err := srv.command("panics", "PANICS"); err != nil {
 		return nil, nil, err
@@ -1720,7 +1816,7 @@ func init() {
 		Level:    "model_checking",
 		Rule: "exhaustive product keyPreference(read from the real flag) x server certificate policy {password, TOTP} x agent {present, absent, present-but-refusing-lifetimes, present-holding-foreign-identities (one of an unparsable key type listed first, one ordinary), present-but-failing-the-first-removal-request} x addGroups x run {first, second} " +
 			"on the client's real setupCerts against the real keymasterd mux (child process, real TLS on loopback); states = client invocations, transitions = HTTP requests recorded; " +
-			"every request is recorded twice (RoundTripper level and plaintext written into the TLS connection), the client's log stream is recorded at debug level 5, and all of it is expanded by all base64/base64url/hex/percent/PEM/Go-byte-slice decodings two levels deep; " +
+			"every request is recorded twice (RoundTripper level and plaintext written into the TLS connection), the client's log stream is recorded at debug level 5, in agent-absent mode foreign agents listen at 8 guessable socket paths (current directory, XDG_RUNTIME_DIR, ~/.ssh) and must see no connection, and all of it is expanded by all base64/base64url/hex/percent/PEM/Go-byte-slice decodings two levels deep; " +
 			"a class is (configuration, run, outcome) where outcome = installed(agent entries, private files, certificates issued) or refused(request, status)",
 		Assumptions: []string{
 			"no HID token attached (bearsh/hid replaced by its own hid_disabled.go through the overlay); U2F/WebAuthn, Symantec VIP, Okta and browser (webauth) second-factor paths are not driven",
